@@ -194,6 +194,19 @@ def fam_shared_consts(k, S):
     return build_lscr_raw(recs + cdata, 92, 92, 0, 92, k, 92, 92 + len(recs))
 
 
+def fam_neg_length_consts(k, pad, ctype=1):
+    """k constant records (string, or float with ctype=9) that all name ONE length word holding a negative number chosen so that the
+    END of the data slice counts from the end of the file (`fdata[p+4:-2]`): every record takes almost the whole file while a guard
+    that clamps the length at 0 sees 4 declared bytes (finding F161: k x N memory, 1000 records in 12 KiB took 30 MB)"""
+    p = 92
+    strlength = -(p + 4) - 2                       # end of slice = p + 4 + strlength = -2
+    v = strlength + 1 if ctype == 1 else strlength
+    body = struct.pack(">i", v) + bytes([0x41]) * pad
+    crb = 92 + len(body)
+    body += struct.pack(">hi", ctype, 0) * k
+    return build_lscr_raw(body, crb, crb, 0, crb, k, crb, p)
+
+
 def fam_empty_loops(n):
     """the Lean witness family of DrxProps/C10Lscr.lean: `01 54 01` n times = n loops `repeat while TRUE / exit / end repeat`;
     JumpOpcode.process makes n*(n+3)/2 loop rounds"""
